@@ -1948,6 +1948,8 @@ class TestGraph(object):
                 object_vm,
                 object_image,
             )
+            # account for the failed attempt or else its retries reuse the same test ID and retry budget
+            test_node.results += pre_node.results[len(test_node.results) :]
             return status
 
         logging.info("Installing virtual machine %s", test_object.suffix)
